@@ -294,13 +294,16 @@ static void op_import(void) {
 		probe_dstring(d, "import-source");
 		snapshot_check(rq.a[0].p, rq.a[0].len, d->str, d->currentStringLength, "import-dstring");
 	} else {
-		e = mmd_engine_create_with_string(rq.a[0].p, rq.ext);
+		/* 0x200: the engine is created over a DString (length-carrying: an ITMZ archive holds NUL bytes) */
+		if (rq.flags & 0x200) e = mmd_engine_create_with_dstring(dstr_from(rq.a[0]), rq.ext);
+		else e = mmd_engine_create_with_string(rq.a[0].p, rq.ext);
 		r = kind ? mmd_engine_convert_itmz_to_text(e) : mmd_engine_convert_opml_to_text(e);
-		probe_dstring(mmd_engine_d_string(e), "import-engine-source");
+		if (!kind) probe_dstring(mmd_engine_d_string(e), "import-engine-source");
 		if (rq.flags & 0x100) {
 			/* "without modifying original engine source": the source is as given, and asking again gives the same text */
 			DString * es = mmd_engine_d_string(e);
-			if (!kind) snapshot_check(rq.a[0].p, strlen(rq.a[0].p), es->str, es->currentStringLength, "import-engine-source");
+			if (rq.flags & 0x200) snapshot_check(rq.a[0].p, rq.a[0].len, es->str, es->currentStringLength, "import-engine-source");
+			else if (!kind) snapshot_check(rq.a[0].p, strlen(rq.a[0].p), es->str, es->currentStringLength, "import-engine-source");
 			DString * r2 = kind ? mmd_engine_convert_itmz_to_text(e) : mmd_engine_convert_opml_to_text(e);
 			if ((r == NULL) != (r2 == NULL) || (r && r2 && (r->currentStringLength != r2->currentStringLength || memcmp(r->str, r2->str, r->currentStringLength) != 0))) {
 				diagf("import-twice-differs:%zu:%zu;", r ? r->currentStringLength : 0, r2 ? r2->currentStringLength : 0);
